@@ -1730,6 +1730,13 @@ def key_atoms(fr, key):
 
 
 def b_str(fr, args, kw, n):
+    if args and isinstance(args[0], AObj) and getattr(fr.I, "interpret_repr", False):
+        # repr() / str() of an object of the analysed program: its own rendering method runs (opt-in: a handler that logs the
+        # rendering of a received PDU executes that code)
+        m_ = fr.I.repo.find_method(args[0].cls, "__repr__") or fr.I.repo.find_method(args[0].cls, "__str__")
+        if m_ is not None:
+            r_ = fr.I.call(m_, [args[0]], {}, args[0].cls)
+            return r_ if isinstance(r_, (str, AOpq)) else fr.I.opaque("str()")
     if args and is_abs(args[0]):
         return fr.I.opaque("str()")
     return str(*args)
@@ -2375,6 +2382,12 @@ def bits_method(fr, b: ABits, name, args, kw, n):
     if name == "to01":
         return I.opaque("to01()", notnone=True)
     if name == "decode":
+        if getattr(I, "strict_decode_may_raise", False) and b.kind == "bytes" and b.items and "errors" not in kw and len(args) < 2:
+            codec_ = (args[0] if args else kw.get("encoding", "utf-8"))
+            if isinstance(codec_, str) and codec_.lower().replace("_", "-") not in ("latin", "latin1", "latin-1", "iso-8859-1", "iso8859-1", "l1", "cp437"):
+                # octets the analysis knows nothing about, decoded with a codec that can fail: both outcomes are paths (opt-in)
+                if I.st.choose(f"decode({codec_}) fails"):
+                    raise PathRaise("UnicodeDecodeError", f"'{codec_}' codec can't decode received octets at {fr.fi.module.relpath}:{getattr(n, 'lineno', 0)}")
         return I.opaque("decode()", notnone=True)
     if name in ("any", "all") and not args and not kw and b.kind != "bytes":
         # bitarray.any() / .all(): "not all zero" / "all one" — a conjunction of linear equalities, decided by trace partitioning
